@@ -24,9 +24,11 @@ MAX_KEYS = 12
 def _plan(tier):
     """(cat, variant, maxtx, maxlen, mode, expand states that already diverged)"""
     if tier == "quick":
-        return [("m", "funder", 2, 5, "compact", False),
+        return [("q", "funder", 2, 4, "compact", True),
+                ("m", "funder", 2, 4, "compact", False),
                 ("m", "funder", 2, 4, "streamed", False),
-                ("h", "funder", 2, 4, "compact", False),
+                ("h", "funder", 2, 3, "compact", False),
+                ("h", "funder", 2, 3, "streamed", False),
                 ("q", "fundee", 2, 4, "compact", True)]
     return [("m", "funder", 2, 5, "compact", False),
             ("m", "funder", 2, 5, "streamed", False),
@@ -37,6 +39,7 @@ def _plan(tier):
             ("m", "funder", 3, 4, "compact", False),
             ("all", "funder", 2, 4, "compact", False),
             ("all", "funder", 2, 4, "streamed", False),
+            ("q", "funder", 2, 4, "compact", True),
             ("q", "funder", 2, 5, "compact", True),
             ("m", "fundee", 2, 5, "compact", False),
             ("q", "fundee", 2, 5, "streamed", True)]
@@ -65,7 +68,6 @@ def run(pid, tier):
     # ---- leg A: the model itself, as the code is at HEAD, and (if that violates) as repaired
     acfg = ("q", "funder", 2, 4) if quick else ("m", "funder", 2, 5)
     a = mon.leg_a("head", *acfg, switches=head, workers=8)
-    acts = vlib.coverage_actions(a["out"])
     cov["legs"]["A_model_head"] = {"cat": acfg[0], "maxtx": acfg[2], "maxlen": acfg[3], "switches": head,
                                    "states": a["states"], "distinct": a["distinct"], "depth": a["depth"],
                                    "violated": a["violated"], "wall_s": round(a["wall_s"], 1)}
@@ -77,15 +79,16 @@ def run(pid, tier):
             model_cex = [step[2][1].get("last") for step in a["trace"]["counterexample"]["action"]]
         log("[%s] leg A: the MODEL (switches as at HEAD) violates %s - a hypothesis about the code" % (pid, a["violated"]))
         a2 = mon.leg_a("repaired", *acfg, switches=mon.REPAIRED, workers=8)
-        acts = vlib.coverage_actions(a2["out"])
         cov["legs"]["A_model_repaired"] = {"switches": mon.REPAIRED, "states": a2["states"], "distinct": a2["distinct"],
                                            "depth": a2["depth"], "violated": a2["violated"],
                                            "wall_s": round(a2["wall_s"], 1)}
         a_states += a2["states"]
         a_distinct += a2["distinct"]
-    for act in ("DoConnect", "DoDisconnect"):
-        if act in acts and acts[act][0] == 0:
-            raise vlib.ToolError("leg A is vacuous: action %s never taken" % act)
+    # with a model that satisfies C14 there is exactly one state per valid chain
+    full = a if not a["violated"] else a2
+    model_chains = full["distinct"] if not full["violated"] else None
+    if model_chains is not None and (full["depth"] < acfg[3] + 1 or model_chains < 50):
+        raise vlib.ToolError("leg A is vacuous: %d states, depth %d" % (model_chains, full["depth"]))
 
     # ---- leg B: implementation state graphs
     tot_nodes = tot_edges = tot_product = tot_gen = 0
@@ -123,6 +126,12 @@ def run(pid, tier):
             raise vlib.ToolError("ImplMonitor: invariant verdict %s disagrees with the edge report (%d)" % (
                 r["violated"], len(rep["first_bad"])))
         instances += inst
+        if (cat, variant, maxtx, maxlen) == acfg and model_chains is not None:
+            # converse direction: the implementation graph covers every chain of the model, and no other
+            cov["legs"][name]["model_chains"] = model_chains
+            if model_chains != rep["chains"]:
+                raise vlib.ToolError("implementation graph has %d distinct chains, the model %d" % (
+                    rep["chains"], model_chains))
         if not samples:
             for row in ex["rows"]:
                 if len(row["c"]) >= 3 and len(row["e"]) >= 2 and row["v"] == row["f"]:
